@@ -23,6 +23,8 @@ from .simfs import SimFS, SimUnsupported
 
 CACHE_DIR = "/SIMFS/cache"
 CACHE_NAME = "simcache"
+OTHER_NAME = "othercache"
+OTHER_DIR = "/SIMFS/othercache"
 
 RES_FAULTS = ("NOTFOUND", "ERR_BEFORE", "ERR_MID", "ERR_AFTER", "RET_FALSE_BEFORE", "RET_FALSE_MID", "INTERRUPT_MID",
               "ERR_STOPITER", "NOTFOUND_MID")
@@ -628,6 +630,12 @@ class World:
             out[p] = (kind, size, at, mt, data, ino, gen)
         return out
 
+    def snapshot_other(self):
+        if not self.knobs.get("second_cache"):
+            return None
+        return {p: (kind, size, data) for p, kind, size, at, mt, data, ino, gen in self.fs.h_tree(OTHER_DIR)
+                if not p.endswith(".part")}
+
     def busy_workers(self):
         return simpool.busy_total()
 
@@ -641,6 +649,11 @@ class World:
             self.cache = self.fc.get_cache(CACHE_NAME)
             self.fc.set_directive_function("postprocess", "pp", self._pp, CACHE_NAME)
             self.fc.set_directive_function("validate", "v", self._validate, CACHE_NAME)
+            if self.knobs.get("second_cache"):
+                # another named cache of the same process, in its own directory
+                self.fc.create_cache(OTHER_NAME, OTHER_DIR, cache_size_GB=1.0, resources=self._resources())
+                self.fc.set_directive_function("postprocess", "pp", self._pp, OTHER_NAME)
+                self.fc.set_directive_function("validate", "v", self._validate, OTHER_NAME)
         else:
             self.cache = self.co.FileCache(self.cache_arg, size_GB=size_gb, do_cache_eviction_on_startup=evict,
                                            resources=self._resources(), parallel=parallel,
@@ -848,6 +861,7 @@ class World:
         self.stats["ops"] += 1
         obs = Obs(op=op, kind=kind, result=None, exc=None, crashed=False)
         obs.pre = self.snapshot_dir()
+        obs.other_pre = self.snapshot_other()
         obs.busy_before = self.busy_workers()
         obs.unlink_from = len(self.fs.unlink_log)
         obs.clock_start = self.clock.stamp()
@@ -889,6 +903,7 @@ class World:
         for f in obs.fired:
             self.stats["fired"][f["kind"]] = self.stats["fired"].get(f["kind"], 0) + 1
         obs.post = self.snapshot_dir()
+        obs.other_post = self.snapshot_other()
         obs.busy_after = self.busy_workers()
         obs.unlinks = self.fs.unlink_log[obs.unlink_from:]
         obs.fetches = self.fetchlog.in_op(op["id"])
@@ -969,12 +984,21 @@ class World:
                     ov = op["val"][pos] if pos < len(op["val"]) else None
                     uris.append(self.uris[i] if ov is None else key_uri(dict(self.keys[i], val=bool(ov))))
             arg = uris[0] if (len(uris) == 1 and op.get("as_str")) else uris
+            if op.get("shape") == "tuple":
+                arg = tuple(uris)
+            elif op.get("shape") == "generator":
+                arg = (u for u in uris)
             res = self._get(arg)
             if self.cwd and isinstance(res, list):
                 # paths relative to the working directory are as good as absolute ones
                 res = [posixpath.normpath(posixpath.join(self.cwd, p)) if isinstance(p, str) and not p.startswith("/") else p
                        for p in res]
             obs.result = res
+        elif kind == "OTHER_GET":
+            # a request to the second named cache; must not touch the first cache's directory
+            if self.knobs.get("second_cache") and self.knobs.get("api") == "module" and self.fc.exists(OTHER_NAME):
+                self.current_req = list(op["keys"])
+                obs.result = self.fc.filepaths([self.uris[i] for i in op["keys"]], OTHER_NAME)
         elif kind == "REMOVE":
             obs.result = self._remove(self.uris[op["key"]])
         elif kind == "PURGE":
